@@ -20,7 +20,7 @@
 //   cdc <s> <src> <csrc> <cdst>   allowClockDomainCrossing(src, csrc, cdst)
 //   out <c|-> <src>               output pin inside ClockScope(c) / with its clock detached
 //   mem <m> <words> <noconf:0|1>
-//   mrd <s> <m> <addr>            asynchronous read port
+//   mrd <s> <m> <addr> <c>        asynchronous read port created inside ClockScope(c)
 //   mwr <m> <c> <addr> <data>     write port clocked by c
 //   clk2sig <s> <c>               Clock::clkSignal() (bit replicated to 4 bits)
 #include "vh.h"
@@ -244,6 +244,7 @@ struct Interp {
 			if (t[3] == "1") m->noConflicts();
 			mems[std::stoi(t[1])] = std::move(m);
 		} else if (c == "mrd") {
+			ClockScope cs(clk(t[4]));
 			UInt v = (*mems.at(std::stoi(t[2])))[sig(t[3])];
 			def(t[1], v);
 		} else if (c == "mwr") {
